@@ -1327,7 +1327,7 @@ class Lattice:
         dx = np.array([op_dx for _, op_dx, op_u in ops], dtype=np.int_).reshape([1, Nops, D])
         u = np.array([op_u for _, op_dx, op_u in ops], dtype=np.int_).reshape([1, Nops, 1])
         coupling_shape, shift_lat_indices = self.multi_coupling_shape(dx[0, :, :])
-        if any([s == 0 for s in coupling_shape]):
+        if any([s <= 0 for s in coupling_shape]):  # the box doesn't fit into the lattice
             if strength is None:
                 return [], [], coupling_shape
             else:
